@@ -12,7 +12,7 @@ from . import gen, recgen, session
 
 CALLS = ["read-random-batch", "prior-sample", "prior-sample-linear", "rejection-obj-mem", "rejection-obj-cache", "rejection-file", "rejection-int",
          "rejection-int-mem", "iterative-mem", "iterative-cache", "rejection-cache-random", "rejection-cache-random-all",
-         "rejection-mem-random", "iterative-cache-random"]
+         "rejection-mem-random", "iterative-cache-random", "prior-sample-legacy-keyword"]
 
 
 def digest_samples(s):
@@ -84,6 +84,12 @@ def run_scenario(seed_tuple, tmpdir, pool_kind=0, api_seed_shift=0, pool=None, r
                 r["omega"] = arr[:, 2] * u_.rad
             elif kind == "prior-sample":
                 r = pb.prior.sample(size=c["size"], rng=np.random.default_rng(api_seed + 1000 + k), return_logprobs=True)
+            elif kind == "prior-sample-legacy-keyword":
+                # the pre-v1.3 spelling of the seed argument (still accepted, with a deprecation warning): same stream as rng=
+                import warnings as _w
+                with _w.catch_warnings():
+                    _w.simplefilter("ignore")
+                    r = pb.prior.sample(size=c["size"], random_state=np.random.default_rng(api_seed + 1000 + k), return_logprobs=True)
             elif kind == "prior-sample-linear":
                 r = pb.prior.sample(size=c["size"], generate_linear=True, rng=np.random.default_rng(api_seed + 2000 + k))
             elif kind == "rejection-obj-mem":
